@@ -656,6 +656,8 @@ func (s *Session) initMemManager() error {
 		}
 		if qm, err = createQueueManager(s.config.QueuePath, s.config.QueueCap); err != nil {
 			os.Remove(s.config.QueuePath)
+			// give back the reference to the buffer manager obtained above
+			addGlobalBufferManagerRefCount(bm.path, -1)
 			return fmt.Errorf("create share memory queue manager failed ,error=%w", err)
 		}
 	} else {
@@ -664,6 +666,8 @@ func (s *Session) initMemManager() error {
 			return fmt.Errorf("create share memory buffer manager failed ,error=%w", err)
 		}
 		if qm, err = createQueueManagerWithMemFd(s.config.QueuePath, s.config.QueueCap); err != nil {
+			// give back the reference to the buffer manager obtained above
+			addGlobalBufferManagerRefCount(bm.path, -1)
 			return fmt.Errorf("create share memory queue manager failed ,error=%w", err)
 		}
 	}
